@@ -65,6 +65,62 @@ K_INT = 'C18:E_gsf:integer-typed-query'
 K_POSLIST = 'C18:pos:list-input'
 K_ALT = 'C18:E_gsf:pos-or-xy-with-alternative-vectors'
 K_LISTARG = 'C18:SDVPN:list-arguments'
+K_ASSERT = 'C18:pos_to_a12:in-plane-assert-absolute-tolerance:small-cell'
+K_XVREF = 'C18:xvect:out-of-plane-accepted:small-cell'
+K_ARCSTEP = 'C18:pn_arctan:incompatible-xstep-accepted:small-scale'
+
+
+def scale_labels(lk, ej=None):
+    """labels of the length scale 10^lk and (when the clause has energies) the energy-per-area scale 10^ej"""
+    lk, ej = int(lk or 0), (None if ej is None else int(ej or 0))
+    labs = {'lscale_1' if lk == 0 else ('lscale_small' if lk < 0 else 'lscale_big')}
+    if lk <= -5:
+        labs.add('lscale<=1e-5')
+    if ej is not None:
+        labs.add('escale_1' if ej == 0 else ('escale_small' if ej < 0 else 'escale_big'))
+    if lk or ej:
+        labs.add('scaled')
+    if lk and ej:
+        labs.add('scaled_both')
+    return labs
+
+
+def _from_pos_to_a12(exc):
+    """True when the exception was raised inside GammaSurface.pos_to_a12"""
+    tb = exc.__traceback__
+    while tb is not None:
+        if tb.tb_frame.f_code.co_name == 'pos_to_a12':
+            return True
+        tb = tb.tb_next
+    return False
+
+
+def _case_min_lk(case):
+    """smallest length-scale exponent of the surfaces / systems of a case"""
+    ks = [0]
+    for d in (case.get('surf'), case.get('sys'), case.get('into'), (case.get('hist') or {}).get('surf2') if isinstance(case.get('hist'), dict) else None):
+        if isinstance(d, dict):
+            ks.append(int(d.get('lk') or 0))
+    return min(ks)
+
+
+def keyed_inplane_assert(fn):
+    """oracle wrapper for the open finding K_ASSERT: pos_to_a12 decides "position in the fault plane" with an absolute
+    tolerance of 1e-6 on the coefficient of a1vect x a2vect, a quantity of dimension 1/length - in a cell of numerically
+    small size (10^-10: metres) the rounding error of exactly in-plane positions exceeds it and the conversion raises
+    AssertionError.  Only that assertion, only for cases that carry a length scale < 1, is keyed."""
+    def wrapped(case):
+        try:
+            return fn(case)
+        except AssertionError as e:
+            lk = _case_min_lk(case)
+            if lk < 0 and _from_pos_to_a12(e):
+                raise Violation('GammaSurface.pos_to_a12 raised AssertionError(%s) for positions a1*a1vect + a2*a2vect in a cell scaled by '
+                                '1e%d: the in-plane test is np.allclose(coefficient of a1vect x a2vect, 0, atol=1e-6), a quantity of '
+                                'dimension 1/length' % (e, lk), key=K_ASSERT)
+            raise
+    wrapped.__name__ = fn.__name__
+    return wrapped
 
 
 # ----------------------------------------------------------------------------- surfaces
@@ -72,8 +128,13 @@ K_LISTARG = 'C18:SDVPN:list-arguments'
 def surface_args(s):
     """keyword arguments of GammaSurface(...) / GammaSurface.set(...) for a surface case + my own description of it"""
     import atomman as am
-    V = G.box_vects(s['box'])
+    l, e = G.pow10(s.get('lk')), G.pow10(s.get('ej'))
+    V = G.box_vects(s['box'], l)
     box = None if s['box'] is None else am.Box(vects=V)
+    # without a box the shift vectors are Cartesian and carry the length scale themselves
+    lv = l if s['box'] is None else 1.0
+    a1vect, a2vect = [t * lv for t in s['a1vect']], [t * lv for t in s['a2vect']]
+    a1v3, a2v3 = np.array(s['a1v3'], dtype=float) * lv, np.array(s['a2v3'], dtype=float) * lv
     n1, n2 = s['n1'], s['n2']
     ext = 1 if s['dup'] else 0
     rows = [(i, j) for i in range(n1 + ext) for j in range(n2 + ext)]
@@ -82,18 +143,19 @@ def surface_args(s):
         rows = [rows[k] for k in perm]
     a1 = [i / n1 for i, j in rows]
     a2 = [j / n2 for i, j in rows]
-    E = [s['E'][i % n1][j % n2] for i, j in rows]
-    D = None if s['D'] is None else [s['D'][i % n1][j % n2] for i, j in rows]
-    kw = dict(a1vect=s['a1vect'], a2vect=s['a2vect'], a1=a1, a2=a2, E_gsf=E, box=box, delta=D)
-    A1 = np.array(s['a1v3'], dtype=float) @ V
-    A2 = np.array(s['a2v3'], dtype=float) @ V
-    Et = np.array(s['E'], dtype=float)
+    E = [s['E'][i % n1][j % n2] * e for i, j in rows]                 # energy per area
+    D = None if s['D'] is None else [s['D'][i % n1][j % n2] * l for i, j in rows]     # plane separation: a length
+    kw = dict(a1vect=a1vect, a2vect=a2vect, a1=a1, a2=a2, E_gsf=E, box=box, delta=D)
+    A1 = a1v3 @ V
+    A2 = a2v3 @ V
+    Et = np.array(s['E'], dtype=float) * e
     info = dict(V=V, box=box, A1=A1, A2=A2, a1=np.array(a1), a2=np.array(a2), E=np.array(E),
-                D=None if D is None else np.array(D), Et=Et, Dt=None if s['D'] is None else np.array(s['D'], dtype=float),
-                n1=n1, n2=n2, slackE=0.0, slackD=0.0)
-    info['Erange'] = max(float(Et.max() - Et.min()), 1e-3 * float(np.abs(Et).max()), 1e-12)
+                D=None if D is None else np.array(D), Et=Et, Dt=None if s['D'] is None else np.array(s['D'], dtype=float) * l,
+                n1=n1, n2=n2, slackE=0.0, slackD=0.0, l=l, e=e, a1v3=a1v3, a2v3=a2v3, a1vect=a1vect, a2vect=a2vect,
+                lk=int(s.get('lk') or 0), ej=int(s.get('ej') or 0))
+    info['Erange'] = max(float(Et.max() - Et.min()), 1e-3 * float(np.abs(Et).max()), 1e-300)
     if D is not None:
-        info['Drange'] = max(float(info['Dt'].max() - info['Dt'].min()), 1e-3 * float(np.abs(info['Dt']).max()), 1e-12)
+        info['Drange'] = max(float(info['Dt'].max() - info['Dt'].min()), 1e-3 * float(np.abs(info['Dt']).max()), 1e-300)
     return kw, info
 
 
@@ -134,7 +196,7 @@ def reload_surface(g, s, route):
 
 
 def surface_labels(s, info):
-    labs = {'kind_' + s['kind']}
+    labs = {'kind_' + s['kind']} | scale_labels(s.get('lk'), s.get('ej'))
     c = abs(float(info['A1'] @ info['A2'])) / (np.linalg.norm(info['A1']) * np.linalg.norm(info['A2']))
     if c > 1e-6:
         labs.add('oblique')
@@ -157,10 +219,10 @@ def surface_labels(s, info):
 def check_setup(g, s, info):
     a1v = np.asarray(g.a1vect, dtype=float)
     a2v = np.asarray(g.a2vect, dtype=float)
-    require(a1v.shape == (3,) and np.abs(a1v - np.array(s['a1v3'])).max() <= 1e-12 * max(1.0, np.abs(a1v).max()),
-            lambda: 'a1vect stored as %r for input %r (3-index %r)' % (a1v, s['a1vect'], s['a1v3']))
-    require(a2v.shape == (3,) and np.abs(a2v - np.array(s['a2v3'])).max() <= 1e-12 * max(1.0, np.abs(a2v).max()),
-            lambda: 'a2vect stored as %r for input %r (3-index %r)' % (a2v, s['a2vect'], s['a2v3']))
+    require(a1v.shape == (3,) and np.abs(a1v - info['a1v3']).max() <= 1e-12 * np.abs(info['a1v3']).max(),
+            lambda: 'a1vect stored as %r for input %r (3-index %r)' % (a1v, info['a1vect'], info['a1v3']))
+    require(a2v.shape == (3,) and np.abs(a2v - info['a2v3']).max() <= 1e-12 * np.abs(info['a2v3']).max(),
+            lambda: 'a2vect stored as %r for input %r (3-index %r)' % (a2v, info['a2vect'], info['a2v3']))
     n = np.cross(info['A1'], info['A2'])
     n = n / np.linalg.norm(n)
     pn_ = np.asarray(g.planenormal, dtype=float)
@@ -600,9 +662,12 @@ def _with_history(case, checks):
 
 def oracle_coords(case):
     """conversions that do not need pos_to_a12 on an (N,3) array"""
+    del _DEFER[:]
     labels = _with_history(case, _coords_checks)
     if 'oblique' in labels or (not case['scalar']):
         labels.add('nt')
+    if _DEFER:
+        raise _DEFER[0]
     return labels
 
 
@@ -690,7 +755,14 @@ def _coords_checks(g, s, info, case, sm, labels, rnd=0):
             require('xvect must be in plane' in str(e), lambda: 'out-of-plane xvect raised ValueError(%s)' % e)
             labels.add('xvect_refused')
         else:
-            raise Violation('pos_to_xy with an xvect out of the fault plane did not raise ValueError')
+            # the test is np.isclose(xvect . planenormal, 0) with numpy's absolute 1e-8 on a length: open finding for
+            # cells of numerically small size (keyed only there; deferred: everything else of the case has been judged)
+            v = Violation('pos_to_xy with an xvect out of the fault plane (by 17 degrees, |xvect| = %.3g) did not raise ValueError'
+                          % np.linalg.norm(bad), key=K_XVREF if info['lk'] <= -8 else None)
+            if v.key is None:
+                raise v
+            if not _DEFER:
+                _DEFER.append(v)
 
 
 _DEFER = []          # keyed Violations of an open finding met in a case: raised after everything else has been judged
@@ -708,13 +780,13 @@ def oracle_coords_multi(case):
     return labels
 
 
-def _alt_vector_sets(case, s):
+def _alt_vector_sets(case, info):
     """the legal ways of giving alternative shift vectors: both, a1vect only (a2vect stays the stored one), a2vect only.
     Yields (name, Meff, kwargs as crystal vectors); row k of Meff holds the coefficients of alternative vector k in the
     stored (a1vect, a2vect).  A single alternative vector has to form a basis with the other stored one: a zero
     coefficient on the diagonal of the drawn matrix is replaced by 1."""
     M = np.array(case['alt'], dtype=float)
-    a1c, a2c = np.array(s['a1v3'], dtype=float), np.array(s['a2v3'], dtype=float)
+    a1c, a2c = info['a1v3'], info['a2v3']
     r0 = M[0] if M[0, 0] != 0 else np.array([1.0, M[0, 1]])
     r1 = M[1] if M[1, 1] != 0 else np.array([M[1, 0], 1.0])
     for name, Me in (('both', M), ('a1only', np.array([r0, [0.0, 1.0]])), ('a2only', np.array([[1.0, 0.0], r1]))):
@@ -805,7 +877,7 @@ def _multi_checks(g, s, info, case, sm, labels, rnd=0):
     if case['alt'] is not None:
         xvc = case.get('xvc') or [1, -1]
         xve = xvc[0] * A1 + xvc[1] * A2
-        sets = list(_alt_vector_sets(case, s))
+        sets = list(_alt_vector_sets(case, info))
         if rnd:
             sets = [sets[rnd % 3]]
         for aname, Me, B1, B2 in sets:
@@ -863,7 +935,7 @@ def _multi_checks(g, s, info, case, sm, labels, rnd=0):
         ui, vi = gsf_ref.pos_to_frac(Pi, A1, A2)
         imax = max(1.0, float(np.abs(ui).max()), float(np.abs(vi).max()))
         pp = g.xy_to_pos(H(Xi, 'x'), H(Yi, 'y'), **kw_x)
-        _cmp(pp, Pi, 1e-11 * max(1.0, float(np.abs(Pi).max())), 'xy_to_pos(integer x, integer y)')
+        _cmp(pp, Pi, 1e-11 * max(Lmax, float(np.abs(Pi).max())), 'xy_to_pos(integer x, integer y)')
         r = _shape_pair(g.xy_to_a12(H(Xi, 'x'), H(Yi, 'y'), **kw_x), n, 'xy_to_a12(integer x, y)')
         _cmp(r[0], ui, 2e-11 * cond * imax, 'xy_to_a12(integer x, y) a1'); _cmp(r[1], vi, 2e-11 * cond * imax, 'xy_to_a12(integer x, y) a2')
         oki = np.ones(n, dtype=bool)
@@ -975,8 +1047,8 @@ def oracle_model(case):
     _cmp(d2['E_gsf'].to_numpy(), info['E'], 1e-12 * np.abs(info['E']).max(), 'round trip E_gsf')
     if info['D'] is not None:
         _cmp(d2['delta'].to_numpy(), info['D'], 1e-12 * np.abs(info['D']).max(), 'round trip delta')
-    _cmp(g2.a1vect, s['a1v3'], 1e-12 * max(1.0, np.abs(s['a1v3']).max()), 'round trip a1vect')
-    _cmp(g2.a2vect, s['a2v3'], 1e-12 * max(1.0, np.abs(s['a2v3']).max()), 'round trip a2vect')
+    _cmp(g2.a1vect, info['a1v3'], 1e-12 * np.abs(info['a1v3']).max(), 'round trip a1vect')
+    _cmp(g2.a2vect, info['a2v3'], 1e-12 * np.abs(info['a2v3']).max(), 'round trip a2vect')
     _cmp(g2.box.vects, info['V'], 1e-8 * np.abs(info['V']).max(), 'round trip box vectors')
     _cmp(g2.planenormal, g.planenormal, 1e-8, 'round trip plane normal')
     q = np.array(case['q'], dtype=float)
@@ -993,7 +1065,8 @@ def oracle_model(case):
             _cmp(np.asarray(d2_)[ok], np.asarray(d1_)[ok], 1e-8 * info['Drange'], 'answers of the reloaded surface, delta(smooth=%r)' % smooth)
     p1 = g.a12_to_pos(q[:, 0], q[:, 1])
     p2 = g2.a12_to_pos(q[:, 0], q[:, 1])
-    _cmp(p2, p1, 1e-8 * max(1.0, float(np.abs(p1).max())), 'a12_to_pos of the reloaded surface')
+    _cmp(p2, p1, 1e-8 * max(np.linalg.norm(info['A1']), np.linalg.norm(info['A2'])) * max(1.0, float(np.abs(q).max())),
+         'a12_to_pos of the reloaded surface')
     if s['D'] is None:
         require('delta' not in d2.columns, 'reloaded surface grew a delta column')
         try:
@@ -1043,7 +1116,11 @@ def build_pn_system(sysc):
     xi = np.cross(m, n)
     M = np.array([m, n, xi])
     T = np.eye(3) if sysc['T'] is None else gens.rotation_matrix(*sysc['T'])
-    b = sysc['b']
+    # length scale l (Burgers vector, shift vectors), energy-per-area scale e (gamma surface); K_tensor is an energy per
+    # volume: e / l
+    l, e = G.pow10(sysc.get('lk')), G.pow10(sysc.get('ej'))
+    ke = e / l
+    b = sysc['b'] * l
     phi = math.radians(sysc['phi'])
     b_mnx = np.array([b * math.cos(phi), 0.0, b * math.sin(phi)])       # in the [m,n,xi] frame
     b_sol = M.T @ b_mnx                                                  # in the solution's Cartesian frame
@@ -1051,7 +1128,7 @@ def build_pn_system(sysc):
     if Kd['kind'] == 'hand':
         Q = np.eye(3) if Kd['rot'] is None else gens.rotation_matrix(*Kd['rot'])
         K_sol = Q @ np.diag(Kd['eig']) @ Q.T
-        K_sol = 0.5 * (K_sol + K_sol.T)
+        K_sol = 0.5 * (K_sol + K_sol.T) * ke
         vol = _hand_volterra_class(am)(m, n, K_sol, b_sol, T)
     else:
         if Kd['kind'] == 'iso':
@@ -1069,11 +1146,18 @@ def build_pn_system(sysc):
             Cij[i + 3, i + 3] = c44
         C = am.ElasticConstants(Cij=Cij)
         try:
-            vol = am.defect.solve_volterra_dislocation(C, T.T @ b_sol, transform=T, m=m_arg, n=n_arg)
+            # the Volterra problem is solved in the unscaled units (how the Stroh / isotropic solvers - their tolerances are
+            # absolute in the moduli - cope with other units is C12's business) ...
+            vol = am.defect.solve_volterra_dislocation(C, T.T @ b_sol / l, transform=T, m=m_arg, n=n_arg)
             K_sol = np.asarray(vol.K_tensor, dtype=float)
+            if l != 1.0 or e != 1.0:
+                # ... and its K_tensor / burgers reach SDVPN in the scaled units through a hand-given solution
+                K_sol = K_sol * ke
+                vol = _hand_volterra_class(am)(np.asarray(vol.m, dtype=float), np.asarray(vol.n, dtype=float), K_sol,
+                                               np.asarray(vol.burgers, dtype=float) * l, np.asarray(vol.transform, dtype=float))
         except ValueError:
             # a degenerate Stroh problem is C12's business: fall back to a hand-given solution
-            K_sol = np.diag([c44 * 1.4, c44 * 1.4, c44])
+            K_sol = np.diag([c44 * 1.4, c44 * 1.4, c44]) * ke
             vol = _hand_volterra_class(am)(m, n, K_sol, b_sol, T)
         require(K_sol.shape == (3, 3) and np.all(np.isfinite(K_sol)), lambda: 'volterra.K_tensor = %r' % K_sol)
     K = M @ K_sol @ M.T
@@ -1081,32 +1165,54 @@ def build_pn_system(sysc):
     gd = sysc['gamma']
     a = math.radians(gd['a1ang'])
     th = math.radians(gd['a2rel'])
-    B1 = gd['a1len'] * np.array([math.cos(a), math.sin(a)])               # (m, xi) components
-    B2 = gd['a2len'] * np.array([math.cos(a + th), math.sin(a + th)])
+    B1 = gd['a1len'] * l * np.array([math.cos(a), math.sin(a)])               # (m, xi) components
+    B2 = gd['a2len'] * l * np.array([math.cos(a + th), math.sin(a + th)])
     A1 = T.T @ (B1[0] * m + B1[1] * xi)
     A2 = T.T @ (B2[0] * m + B2[1] * xi)
     n1, n2 = gd['n1'], gd['n2']
-    Et = G.table(gd['Eseed'], n1, n2, 'fourier', gd['scale'])
+    Et = (np.array(G.table(gd['Eseed'], n1, n2, 'fourier', gd['scale'])) * e).tolist()
     ext = 1 if gd['dup'] else 0
     rows = [(i, j) for i in range(n1 + ext) for j in range(n2 + ext)]
     gam = am.defect.GammaSurface(a1vect=A1, a2vect=A2, a1=[i / n1 for i, j in rows], a2=[j / n2 for i, j in rows],
                                  E_gsf=[Et[i % n1][j % n2] for i, j in rows])
     return dict(vol=vol, gamma=gam, dup=bool(gd['dup']), M=M, T=T, K=K, K_sol=K_sol, b=b_mnx, B=np.array([B1, B2]).T, A1=A1, A2=A2,
-                Emax=float(np.abs(np.array(Et)).max()), m=m, n=n, xi=xi)
+                Emax=float(np.abs(np.array(Et)).max()), m=m, n=n, xi=xi, l=l, e=e, ke=ke,
+                lk=int(sysc.get('lk') or 0), ej=int(sysc.get('ej') or 0))
 
 
-def build_profile(pr, b_mnx):
-    """x grid and disregistry rows (edge, 0, screw) in the [m,n,xi] frame"""
+def scale_settings(st_, S):
+    """the settings of a case in the units of the system: tau is an energy per volume (e/l), beta an energy per area
+    (e), alpha an energy per length^4 (e/l^2), the long-range cutoff a length (None = the documented default of 1000
+    working units of length)"""
+    if st_ is None:
+        return None
+    out = dict(st_)
+    l, e, ke = S['l'], S['e'], S['ke']
+    if 'tau' in out:
+        out['tau'] = [[t * ke for t in r] for r in out['tau']]
+    if 'beta' in out:
+        out['beta'] = [[t * e for t in r] for r in out['beta']]
+    if out.get('alpha') is not None:
+        a = out['alpha']
+        out['alpha'] = [t * ke / l for t in a] if isinstance(a, list) else a * ke / l
+    if out.get('cutoff') is not None:
+        out['cutoff'] = out['cutoff'] * l
+    return out
+
+
+def build_profile(pr, b_mnx, l=1.0):
+    """x grid and disregistry rows (edge, 0, screw) in the [m,n,xi] frame; b_mnx carries the length scale l already, the
+    grid origin, the whole-number grids and the rounding unit of the staircase profiles are multiplied by it here"""
     N = pr['N']
     bmag = float(np.linalg.norm(b_mnx))
     dx = bmag / pr['kstep']
     if pr.get('xint'):
-        dx = float(pr['xint']['dx'])
-        x = float(pr['xint']['x0']) + np.arange(N) * dx
+        dx = float(pr['xint']['dx']) * l
+        x = (float(pr['xint']['x0']) + np.arange(N) * float(pr['xint']['dx'])) * l
     elif pr['x0'] is None:
         x = (np.arange(N) - (N - 1) / 2.0) * dx
     else:
-        x = pr['x0'] + np.arange(N) * dx
+        x = pr['x0'] * l + np.arange(N) * dx
     xc = 0.5 * (x[0] + x[-1]) + pr['center'] * dx
     w = pr['w'] * bmag
     f = np.arctan((x - xc) / w) / math.pi + 0.5
@@ -1117,7 +1223,7 @@ def build_profile(pr, b_mnx):
         d[:, comp] += amp * bmag * np.sin(math.pi * k * t) + ramp * bmag * t
     d[:, 1] = 0.0
     if pr.get('round'):
-        d = np.rint(d) + 0.0
+        d = np.rint(d / l) * l + 0.0
     return x, d
 
 
@@ -1146,11 +1252,11 @@ def alphas_of(st_):
 
 def pn_labels(case, S, d):
     st_ = case['set']
-    labs = {'K_' + case['sys']['K']['kind'], 'frame_' + ''.join(case['sys']['frame'])[:6]}
+    labs = {'K_' + case['sys']['K']['kind'], 'frame_' + ''.join(case['sys']['frame'])[:6]} | scale_labels(S['lk'], S['ej'])
     if case['sys']['T'] is not None:
         labs.add('crystal_rot')
-    edge = np.abs(np.diff(d[:, 0])).max() > 1e-9
-    screw = np.abs(np.diff(d[:, 2])).max() > 1e-9
+    edge = np.abs(np.diff(d[:, 0])).max() > 1e-9 * S['l']
+    screw = np.abs(np.diff(d[:, 2])).max() > 1e-9 * S['l']
     if edge and screw:
         labs.add('mixed')
     opt = False
@@ -1163,7 +1269,7 @@ def pn_labels(case, S, d):
     for f in ('fullstress', 'cdiffelastic', 'cdiffsurface', 'cdiffstress'):
         if st_[f]:
             labs.add(f)
-    if abs(np.linalg.norm(S['K'] - np.diag(np.diag(S['K'])))) > 1e-9:
+    if abs(np.linalg.norm(S['K'] - np.diag(np.diag(S['K'])))) > 1e-9 * S['ke']:
         labs.add('K_offdiag')
     N = len(d)
     labs.add('N<=25' if N <= 25 else ('N<=120' if N <= 120 else 'N>120'))
@@ -1353,7 +1459,7 @@ def run_history(case, S, pn, st_, x, d, labels, judge, nmax=200):
     moved = False
     for num, step in enumerate(case.get('hist') or []):
         p = step_profile(step, base, prev, nmax)
-        xs, ds = build_profile(p, S['b'])
+        xs, ds = build_profile(p, S['b'], S['l'])
         via = step['via']
         history_labels(labels, step, via, xs, xprev, x, moved)
         tag = step_tag(num + 2, step, via, xs, xprev)
@@ -1362,7 +1468,7 @@ def run_history(case, S, pn, st_, x, d, labels, judge, nmax=200):
         try:
             H = _Hand('arr')
             if step.get('chg'):
-                cur = apply_settings(pn, cur, step['chg'], H)
+                cur = apply_settings(pn, cur, scale_settings(step['chg'], S), H)
             fx, fd = p.get('fx') or 'arr', p.get('fd') or 'arr'
             a, kw = hand_over(pn, xs, ds, via, H, fx, fd, bool(case.get('listargs')), labels)
             if fx != 'arr' or fd != 'arr':
@@ -1445,10 +1551,10 @@ def judge_terms(pn, S, K, st_, x, d, a, kw, labels):
 
 def oracle_pn_terms(case):
     S = build_pn_system(case['sys'])
-    st_ = case['set']
+    st_ = scale_settings(case['set'], S)
     del _DEFER[:]
     pf = case['prof']
-    x, d = build_profile(pf, S['b'])
+    x, d = build_profile(pf, S['b'], S['l'])
     H = _Hand('arr')
     pn = make_sdvpn(S, st_, H=H)
     labels = pn_labels(case, S, d)
@@ -1474,7 +1580,7 @@ def oracle_pn_terms(case):
     e2 = float(pn.elastic_energy(x, d2))
     sc2 = pn_ref.elastic(x, d2, K, st_['cdiffelastic'])[1]
     _close(ea + eb, 2 * float(e_el) + 2 * e2, 4 * (sc + sc2), 'parallelogram law E(a+b)+E(a-b) = 2E(a)+2E(b) of elastic_energy', rel=1e-9)
-    c = np.array([case['shiftc'][0], 0.0, case['shiftc'][1]])
+    c = np.array([case['shiftc'][0], 0.0, case['shiftc'][1]]) * S['l']
     e_sh = pn.elastic_energy(x, d + c)
     _close(e_sh, float(e_el), sc, 'elastic_energy(disregistry + constant %r) vs elastic_energy(disregistry)' % c.tolist(),
            rel=1e-9, extra=sc * 64 * EPS * (np.abs(c).max() + np.abs(d).max()) * N / (np.linalg.norm(S['b'])))
@@ -1556,10 +1662,10 @@ def judge_total(pn, S, K, st_, x, d, a, kw, labels):
 def oracle_pn_total(case):
     S = build_pn_system(case['sys'])
     blocked_multi(S)
-    st_ = case['set']
+    st_ = scale_settings(case['set'], S)
     del _DEFER[:]
     pf = case['prof']
-    x, d = build_profile(pf, S['b'])
+    x, d = build_profile(pf, S['b'], S['l'])
     H = _Hand('arr')
     pn = make_sdvpn(S, st_, H=H)
     labels = pn_labels(case, S, d)
@@ -1618,9 +1724,9 @@ def oracle_solve(case):
     S = build_pn_system(case['sys'])
     blocked_multi(S)
     del _DEFER[:]
-    st_ = dict(case['set'])
+    st_ = scale_settings(case['set'], S)
     pf = case['prof']
-    x, d = build_profile(pf, S['b'])
+    x, d = build_profile(pf, S['b'], S['l'])
     fx, fd = pf.get('fx') or 'arr', pf.get('fd') or 'arr'
     H = _Hand('arr')
     N = len(x)
@@ -1633,7 +1739,7 @@ def oracle_solve(case):
     else:
         # the object is built with other settings; the real ones reach it through the setters / solve's keywords
         decoy = dict(st_)
-        decoy.update(_DECOY)
+        decoy.update(scale_settings(_DECOY, S))
         for f in ('fullstress', 'cdiffelastic', 'cdiffsurface'):
             decoy[f] = not st_[f]
         pn = make_sdvpn(S, decoy)
@@ -1661,7 +1767,7 @@ def oracle_solve(case):
     if h:
         labels.add('history')
         p2 = step_profile(h, case['prof'], case['prof'], nmax=21)
-        x2, d2 = build_profile(p2, S['b'])
+        x2, d2 = build_profile(p2, S['b'], S['l'])
         fx2, fd2 = p2.get('fx') or 'arr', p2.get('fd') or 'arr'
         if len(x2) <= 2 * len(alphas_of(st_)):
             h = None
@@ -1755,7 +1861,7 @@ def oracle_solve(case):
         H.verify(' [energy evaluations after the solve]')
         _cmp(pn.disregistry, d1, 0.0, 'stored solution after further energy evaluations')
         labels.add('history_post_solve')
-    if np.abs(d1 - d).max() > 1e-9:
+    if np.abs(d1 - d).max() > 1e-9 * S['l']:
         labels.add('moved')
     if e1 < e0 - 1e-6 * abs(e0):
         labels.add('lowered')
@@ -1799,7 +1905,9 @@ def _hw_energy(pn, b_vec, xi, L, dx, am):
 
 def oracle_halfwidth(case):
     import atomman as am
-    b = case['b']
+    l, e = G.pow10(case.get('lk')), G.pow10(case.get('ej'))
+    ke = e / l
+    b = case['b'] * l
     fr = case['frame']
     m, n = np.array(_AX[fr[0]]), np.array(_AX[fr[1]])
     xi_v = np.cross(m, n)
@@ -1807,11 +1915,11 @@ def oracle_halfwidth(case):
     edge = case['char'] == 'edge'
     # K diagonal in the [m,n,xi] frame, the Burgers direction carries Kbb
     kd = [case['Kbb'], case['Kother'][0], case['Kother'][1]] if edge else [case['Kother'][0], case['Kother'][1], case['Kbb']]
-    K_sol = M.T @ np.diag(kd) @ M
+    K_sol = M.T @ np.diag(kd) @ M * ke
     b_mnx = np.array([b, 0.0, 0.0]) if edge else np.array([0.0, 0.0, b])
-    other = np.array([0.0, 0.0, case['c']]) if edge else np.array([case['c'], 0.0, 0.0])
+    other = np.array([0.0, 0.0, case['c'] * l]) if edge else np.array([case['c'] * l, 0.0, 0.0])
     xi0 = case['xi_over_b'] * b
-    gamma0 = case['Kbb'] * b * b / (4 * math.pi ** 2 * xi0)            # xi0 = K b^2 / (4 pi^2 gamma0)
+    gamma0 = case['Kbb'] * ke * b * b / (4 * math.pi ** 2 * xi0)            # xi0 = K b^2 / (4 pi^2 gamma0)
     n1, n2 = case['n1'], case['n2']
     rows = [(i, j) for i in range(n1) for j in range(n2)]
     gam = am.defect.GammaSurface(a1vect=M.T @ b_mnx, a2vect=M.T @ other, a1=[i / n1 for i, j in rows], a2=[j / n2 for i, j in rows],
@@ -1831,7 +1939,7 @@ def oracle_halfwidth(case):
                 '(relative error %.3g > %.3g; L = %g xi0, spacing b/%d)' % (w, xi0, err, bound, Lf, case['kstep']))
         res.append(err)
     require(res[1] <= res[0] + 0.01, lambda: 'half-width error grows with the domain: %.4g at L=12 xi0, %.4g at L=40 xi0' % (res[0], res[1]))
-    labels = {'char_' + case['char'], 'frame_' + ''.join(fr), 'nt'}
+    labels = {'char_' + case['char'], 'frame_' + ''.join(fr), 'nt'} | scale_labels(case.get('lk'), case.get('ej'))
     labels.add('err40<2%' if res[1] < 0.02 else ('err40<5%' if res[1] < 0.05 else 'err40>=5%'))
     return labels
 
@@ -1840,34 +1948,35 @@ def oracle_halfwidth(case):
 
 def oracle_arctan(case):
     import atomman as am
-    n, step = case['n'], case['step']
+    l = G.pow10(case.get('lk'))
+    n, step = case['n'], case['step'] * l
     xmax = step * (n - 1) / 2.0
     mode = case['xmode']
     al = case['aslist']
     if mode == 'x':
-        xs = case['x0'] + step * np.arange(n)
+        xs = case['x0'] * l + step * np.arange(n)
         kwx = {'x': xs}
     else:
         xs = np.linspace(-xmax, xmax, n)
         kwx = {'xmax+xstep': dict(xmax=xmax, xstep=step), 'xmax+xnum': dict(xmax=xmax, xnum=n),
                'xstep+xnum': dict(xstep=step, xnum=n), 'all3': dict(xmax=xmax, xstep=step, xnum=n)}[mode]
-    labels = {'x_' + mode, 'b_' + case['bkind']}
+    labels = {'x_' + mode, 'b_' + case['bkind']} | scale_labels(case.get('lk'))
     if case['bkind'] == 'vec':
-        bv = np.array(case['b'], dtype=float)
+        bv = np.array(case['b'], dtype=float) * l
         kwb = {'burgers': bv.tolist() if al else bv}
     elif case['bkind'] == 'float':
-        bv = np.array([case['bmag']])
-        kwb = {'burgers': case['bmag']}
+        bv = np.array([case['bmag'] * l])
+        kwb = {'burgers': case['bmag'] * l}
     else:
-        bv = np.array([1.0, 0.0, 0.0])
+        bv = np.array([1.0, 0.0, 0.0])           # the documented default Burgers vector (not scaled)
         kwb = {}
-    c, w = case['center'], case['w']
+    c, w = case['center'] * l, case['w'] * l
     kw = dict(center=c, halfwidth=w)
     if c == 0.0 and w == 1.0:
         kw = {}
     norm, shift = case['normalize'], case['shift']
     rx, d = am.defect.pn_arctan_disregistry(**kwx, **kwb, **kw, normalize=norm, shift=shift)
-    _cmp(rx, xs, 1e-12 * max(1.0, np.abs(xs).max()), 'x returned by pn_arctan_disregistry(%s)' % mode)
+    _cmp(rx, xs, 1e-12 * np.abs(xs).max(), 'x returned by pn_arctan_disregistry(%s)' % mode)
     raw = pn_ref.arctan_disregistry(xs, bv, c, w)
     bn = float(np.linalg.norm(bv))
     fac = 1.0
@@ -1884,14 +1993,14 @@ def oracle_arctan(case):
     if norm:
         _cmp(np.asarray(d)[-1] - np.asarray(d)[0], bv, 1e-12 * bn, 'end-to-end difference of the normalised disregistry vs the Burgers vector')
     rx2, rho = am.defect.pn_arctan_disldensity(**kwx, **kwb, **kw, normalize=norm)
-    _cmp(rx2, xs, 1e-12 * max(1.0, np.abs(xs).max()), 'x returned by pn_arctan_disldensity')
+    _cmp(rx2, xs, 1e-12 * np.abs(xs).max(), 'x returned by pn_arctan_disldensity')
     _cmp(rho, pn_ref.arctan_density(xs, bv, c, w) * fac, 1e-12 * bn / w * fac, 'pn_arctan_disldensity(normalize=%r) vs b/pi xi/((x-c)^2+xi^2)' % norm)
     # density is the derivative of the disregistry: central differences of the returned profile
     if n >= 5 and step <= 0.25 * w:
         dd = np.asarray(d, dtype=float)
         num = (dd[2:] - dd[:-2]) / (xs[2:] - xs[:-2])[:, None]
         # |f'''| <= 2 b /(pi xi^3): truncation h^2/6 f'''
-        bnd = step ** 2 / 6.0 * 2.0 * bn * fac / (math.pi * w ** 3) * 1.5 + 1e-9 * bn
+        bnd = step ** 2 / 6.0 * 2.0 * bn * fac / (math.pi * w ** 3) * 1.5 + 1e-9 * bn * fac / w
         err = np.abs(num - np.asarray(rho)[1:-1]).max()
         require(err <= bnd, lambda: 'disldensity is not the derivative of the disregistry: central difference differs by %.3g (bound %.3g)' % (err, bnd))
         labels.add('derivative')
@@ -1903,7 +2012,10 @@ def oracle_arctan(case):
             require('Incompatible parameters' in str(e), lambda: 'incompatible xmax/xstep/xnum raised ValueError(%s)' % e)
             labels.add('refusal_checked')
         else:
-            raise Violation('pn_arctan_disregistry accepted incompatible xmax, xstep, xnum')
+            # the test is np.isclose(dx, xstep) with numpy's absolute 1e-8 added to the relative 1e-5: open finding for
+            # steps below 2e-8 working units (keyed only for scaled-down cases)
+            raise Violation('pn_arctan_disregistry accepted incompatible xmax=%r, xstep=%r (= 1.5 x 2 xmax/(xnum-1)), xnum=%d'
+                            % (xmax, step * 1.5, n), key=K_ARCSTEP if (case.get('lk') or 0) <= -7 else None)
     labels.add('nt')
     return labels
 
@@ -1930,12 +2042,12 @@ CLAUSES = [
     Clause('periodic', oracle_periodic, _periodic_cases, quick=900, thorough=16000,
            min_share={'nt': 0.35, 'oblique': 0.28, 'shifted': 0.35, 'scalar': 0.18, 'history_mode_order': 0.2, 'history_mode_back': 0.1},
            desc='E(a1+k1, a2+k2) = E(a1, a2) for integer periods; nearest mode equals the exact nearest-sample table'),
-    Clause('coords', oracle_coords, G.coords_cases, quick=1200, thorough=20000,
+    Clause('coords', keyed_inplane_assert(oracle_coords), G.coords_cases, quick=1200, thorough=20000,
            min_share={'nt': 0.45, 'oblique': 0.4, 'npts3': 0.15, 'xvect': 0.18, 'scalar': 0.18,
                       'history': 0.25, 'history_reload_set': 0.08, 'history_reload_model': 0.08, 'history_swap': 0.08, 'history_other_mode': 0.04,
                       'form_ro': 0.06, 'form_strided': 0.05, 'form_tuple': 0.04, 'form_npscalar': 0.06, 'form_int': 0.05, 'int_typed': 0.04},
            desc='a12_to_pos, pos_to_xy, xy_to_pos, a12_to_xy, pos_to_a12(single) against independent basis algebra; mutual inverses'),
-    Clause('coords_multi', oracle_coords_multi, G.coords_cases, quick=1200, thorough=20000,
+    Clause('coords_multi', keyed_inplane_assert(oracle_coords_multi), G.coords_cases, quick=1200, thorough=20000,
            min_share=_BlockedGuard({'nt': 0.3, 'oblique': 0.25, 'npts3': 0.1, 'npts7': 0.06, 'altvect': 0.18, 'smooth': 0.15, 'nearest': 0.2,
                                     'history': 0.25, 'history_reload_set': 0.1, 'history_reload_model': 0.08, 'history_swap': 0.1,
                                     'history_other_mode': 0.05,
@@ -1960,7 +2072,7 @@ CLAUSES = [
                                    drop_listarg=('list_args',)),
            desc='disldensity, elastic, long-range, stress (both forms), surface, nonlocal vs independent formula evaluation; quadratic form, rigid shift; '
                 'repeated evaluations on one object (arguments / setters / changed settings)'),
-    Clause('pn_total', oracle_pn_total, G.pn_hist_cases, quick=1000, thorough=16000,
+    Clause('pn_total', keyed_inplane_assert(oracle_pn_total), G.pn_hist_cases, quick=1000, thorough=16000,
            min_share=_BlockedGuard({'nt': 0.15, 'mixed': 0.23, 'wraps': 0.1, 'crystal_rot': 0.15,
                                     'history': 0.17, 'history_same_len_new_spacing': 0.09, 'history_setter_between': 0.12,
                                     'history_settings_changed': 0.06, 'history_new_len': 0.035,
@@ -1969,7 +2081,7 @@ CLAUSES = [
                                    drop_listarg=('list_args',)),
            desc='misfit energy vs dx*sum gamma(delta) by independent conversion; total = sum of the six terms = independent evaluation; '
                 'repeated evaluations on one object'),
-    Clause('solve', oracle_solve, G.solve_cases, quick=64, thorough=640, max_share={'timeout_skipped': 0.2},
+    Clause('solve', keyed_inplane_assert(oracle_solve), G.solve_cases, quick=64, thorough=640, max_share={'timeout_skipped': 0.2},
            min_share=_BlockedGuard({'moved': 0.5, 'lowered': 0.4, 'history': 0.28, 'history_same_len_new_spacing': 0.05,
                                     'history_eval_between_store_and_solve': 0.07,
                                     'forms': 0.4, 'int_typed': 0.2, 'dform_int': 0.08, 'dform_ro': 0.03}),
